@@ -142,7 +142,7 @@ def handle (st : DState) (op : String) (args impl : List String) : Option (DStat
     | some s, [dt, cnt, off, vals] =>
       match parseIdx cnt, parseIdx off, parseList vals with
       | some cnt, some off, some vals =>
-        match vals.mapM (convTok dt s.dtype) with
+        match (if s.dtype == "Bool" && dt != "Bool" then none else vals.mapM (convTok dt s.dtype)) with      -- only booleans convert into a boolean array
         | none => (st, cmp "da_wr.conv" ["err", "H5Error"] impl)
         | some vs =>
           let s := if implOk impl then (match resolveBox s.implShape cnt off with
@@ -154,6 +154,26 @@ def handle (st : DState) (op : String) (args impl : List String) : Option (DStat
       | _, _, _ => (st, .malformed "da_wr")
     | none, _ => noArr
     | _, _ => (st, .malformed "da_wr")
+  -- the whole-array write that also sets the extent (NDArray.setWhole, fix 17a5091): accepted iff the element classes convert —
+  -- strings only into string arrays, only booleans into boolean arrays (HDF5 has no conversion path otherwise)
+  | "da_whole" => some <|
+    match st.arr, args with
+    | some s, [dt, shape, vals] =>
+      match parseIdx shape, parseList vals with
+      | some sh, some vals =>
+        let conv := vals.mapM (convTok dt s.dtype)
+        let accepts := conv.isSome && !(s.dtype == "Bool" && dt != "Bool")
+        let vs := conv.getD []
+        let s := if implOk impl then { s with hist := .write (zeros sh.length) sh vs :: .extent sh :: s.hist, implShape := sh } else s
+        let (a', r) := s.arr.setWhole sh vs accepts
+        let tag := s!"da_whole.{if sh == s.arr.shape then "same" else "resize"}.{if accepts then "accepted" else "refused"}"
+        ({ st with arr := some { s with arr := a' } },
+          match r with
+          | .ok () => cmp (tag ++ ".ok") ["ok"] impl
+          | .error e => cmp (tag ++ ".err") (errTok e) impl)
+      | _, _ => (st, .malformed "da_whole")
+    | none, _ => noArr
+    | _, _ => (st, .malformed "da_whole")
   | "da_rd" => some <|
     match st.arr, args with
     | some s, [dt, cnt, off, _] =>
@@ -191,7 +211,7 @@ def handle (st : DState) (op : String) (args impl : List String) : Option (DStat
     | some s, [dt, cnt, axis, vals] =>
       match parseIdx cnt, parseNat axis, parseList vals with
       | some cnt, some axis, some vals =>
-        match vals.mapM (convTok dt s.dtype) with
+        match (if s.dtype == "Bool" && dt != "Bool" then none else vals.mapM (convTok dt s.dtype)) with
         | none => (st, cmp "da_app.conv" ["err", "H5Error"] impl)
         | some vs =>
           let s := if implOk impl then
